@@ -40,7 +40,7 @@ func OverlayFiles() (map[string]string, error) {
 	return out, err
 }
 
-var GoEnv = []string{"GOFLAGS=-mod=mod", "GOPROXY=off", "GOSUMDB=off", "GOTOOLCHAIN=local", "CGO_ENABLED=0"}
+var GoEnv = []string{"GOMAXPROCS=2", "GOFLAGS=-mod=mod", "GOPROXY=off", "GOSUMDB=off", "GOTOOLCHAIN=local", "CGO_ENABLED=0"}
 
 // LoadProgram loads /repo's current working tree with the harness packages and overlays.
 func LoadProgram() (*interp.Program, error) {
